@@ -86,7 +86,7 @@ class round_trip_list_of_complex:
 
 
 def make_text_round_trip(fmt):
-    @contract('CircuitCalculator.dump_load.serialize', props=P, name='round_trip_' + fmt,
+    @contract('CircuitCalculator.dump_load.serialize', props=P, name='round_trip_' + fmt, search='wide',
               bounded='documents of nesting depth 3 with one list of dictionaries; json/yaml follow their assumed contract (DESIGN sec. 4)')
     class _c:
         frame = False
@@ -107,7 +107,7 @@ make_text_round_trip('yaml')
 make_text_round_trip('yml')
 
 
-@contract('CircuitCalculator.dump_load.serialize', props=P + ['C19'])
+@contract('CircuitCalculator.dump_load.serialize', props=P + ['C19'], search='wide')
 class unknown_format:
     total = True
 
